@@ -209,6 +209,56 @@ pub fn run(prop: &str, tier: &str, replay: Option<&str>) -> i32 {
         });
         rep.add(sec);
     }
+    // 1b. the PrivateKeyDer variant is the caller's claim, not a property of the bytes: every fixture key under every
+    // variant through the two entry points that take one; a mismatching claim is refused or, if the key loads, it is
+    // the right key with the right algorithm
+    {
+        let mut cases: Vec<(usize, usize, Option<Alg>)> = Vec::new();
+        for (zi, z) in zoo.iter().enumerate() {
+            if z.kind.is_slow() && z.kind != KeyKind::Rsa6144 && !thorough {
+                continue;
+            }
+            for w in 0..3usize {
+                cases.push((zi, w, None));
+                for a in algs.iter().filter(|a| z.kind.fits(**a)) {
+                    cases.push((zi, w, Some(*a)));
+                }
+            }
+        }
+        let sec = Section::new("matrix/claimed-variant", "every fixture key's bytes wrapped as PrivateKeyDer::Pkcs8 / Sec1 / Pkcs1 (whatever they really are) through KeyPair::try_from(&PrivateKeyDer) and from_der_and_sign_algo with every fitting algorithm: no panic; a key that loads is the right key, labelled with the requested (or natural) algorithm, and signs verifiably");
+        run::sweep_cases(&sec, &cases, &|c| format!("{} claimed as {} as {:?}", zoo[c.0].name, ["Pkcs8", "Sec1", "Pkcs1"][c.1], c.2.map(|a| a.name())), &|c| {
+            let z = &zoo[c.0];
+            let mut out = Outcome::default();
+            let k = match c.1 {
+                0 => PrivateKeyDer::Pkcs8(PrivatePkcs8KeyDer::from(z.der.clone())),
+                1 => PrivateKeyDer::Sec1(pki_types::PrivateSec1KeyDer::from(z.der.clone())),
+                _ => PrivateKeyDer::Pkcs1(pki_types::PrivatePkcs1KeyDer::from(z.der.clone())),
+            };
+            let what = format!("claimed {}", ["Pkcs8", "Sec1", "Pkcs1"][c.1]);
+            let r = guarded(|| match c.2 {
+                None => KeyPair::try_from(&k),
+                Some(a) => KeyPair::from_der_and_sign_algo(&k, rc_alg(a).unwrap()),
+            });
+            out.transitions = 1;
+            let mut f = Vec::new();
+            match r {
+                Err(p) => f.push(Finding::new("KEY-LOAD-PANIC", &what, p)),
+                Ok(Err(e)) => out.digest = fnv(format!("{:?}", std::mem::discriminant(&e)).as_bytes()),
+                Ok(Ok(kp)) => {
+                    out.digest = fnv(kp.der_bytes());
+                    let want = c.2.unwrap_or(z.kind.natural_alg());
+                    if !z.kind.backend_kind_ok() {
+                        f.push(Finding::new("KEY-LOAD-MISTYPED", &what, format!("a {:?} key must not load in this back end", z.kind)));
+                    } else {
+                        check_loaded(&kp, want, &z.spki, &z.raw_pub, &what, &mut f);
+                    }
+                }
+            }
+            out.findings = f;
+            out
+        });
+        rep.add(sec);
+    }
     // 2. serialise / load cycles: load -> serialize_der -> load -> serialize_pem -> load through every entry point
     {
         let mut keys: Vec<(String, KeyPair, Alg, Vec<u8>, Vec<u8>, KeyFormat)> = Vec::new();
